@@ -30,8 +30,28 @@ def rule_a(ck):
     for p in ps:
         adds = p.calls('byte_buffer_add')
         if not adds:
-            if p.ret != C(ENOMEM):
-                bad = 'path without a buffer returns %s' % fmt(p.ret)
+            # nothing is stored on this path: without a buffer that is a refusal; with one it is the case "no octet fits or
+            # none was supplied" (a store of nothing skipped) - success only if nothing was supplied, a refusal only if
+            # something was and does not fit
+            # "no buffer": the path never looked at a buffer's size (it was refused before one was chosen)
+            nobuf = False
+            sizes = [x for c in p.cond_terms() for x in sym.subterms(c) if x[0] == 'f' and x[2] == 'size']
+            if nobuf or not sizes:
+                if p.ret != C(ENOMEM):
+                    bad = 'path without a buffer returns %s' % fmt(p.ret)
+                continue
+            b0 = sizes[0][1]
+            size0, used0, off0 = (L(('f', b0, x)) for x in ('size', 'used', 'offset'))
+            inv0 = [lin.le(off0, used0), lin.le(used0, size0)]
+            facts0 = eng.path_facts(p) + inv0
+            if p.ret == C(0):
+                if not eng.entails(facts0, L(n)):
+                    bad = bad or 'reports success without storing anything although octets were supplied (n > 0 is possible on this path): they are dropped unnoticed'
+            elif p.ret == C(ENOMEM):
+                if eng.feasible(p.cond_terms(), inv0 + [lin.le(L(n), size0 - used0), Lin.const(1) - L(n)]):
+                    bad = bad or 'reports -ENOMEM without storing although the data fits'
+            else:
+                bad = bad or 'unexpected result %s' % fmt(p.ret)
             continue
         nadd += 1
         a = adds[0]
